@@ -94,6 +94,25 @@ pub async fn tls_connect(addr: SocketAddr, server_name: &str, alpn: &[&[u8]]) ->
     tokio::time::timeout(Duration::from_secs(5), connector.connect(name, tcp)).await.ok()?.ok()
 }
 
+/// One handshake with the given SNI: `Some(true)` completed, `Some(false)` refused by the peer, `None` inconclusive
+/// (no TCP connection, or neither outcome within 5 s)
+pub async fn tls_probe(addr: SocketAddr, server_name: &str, alpn: &[&[u8]]) -> Option<bool> {
+    let mut cfg = rustls::ClientConfig::builder()
+        .with_safe_defaults()
+        .with_custom_certificate_verifier(Arc::new(NoVerify))
+        .with_no_client_auth();
+    cfg.alpn_protocols = alpn.iter().map(|x| x.to_vec()).collect();
+    let connector = tokio_rustls::TlsConnector::from(Arc::new(cfg));
+    let name = rustls::ServerName::try_from(server_name).ok()?;
+    let tcp = tokio::time::timeout(Duration::from_secs(5), TcpStream::connect(addr)).await.ok()?.ok()?;
+    let _ = tcp.set_nodelay(true);
+    match tokio::time::timeout(Duration::from_secs(5), connector.connect(name, tcp)).await {
+        Ok(Ok(_)) => Some(true),
+        Ok(Err(_)) => Some(false),
+        Err(_) => None,
+    }
+}
+
 // ------------------------------------------------------------------------------------------------ HTTP/3
 
 const MAX_UDP: usize = 1350;
